@@ -17,6 +17,16 @@ TABLES = [[[0.0, 0.0], [2.0, 4.0], [6.0, 5.0]], [[0.0, 10.0], [1.0, 0.0]],
           [[-4.0, -1.0], [0.0, 0.0], [8.0, 2.0], [16.0, 2.0]], [[1.0, 1.0], [3.0, 9.0]], [[0.0, 3.0], [5.0, 3.5], [7.0, -2.0]]]
 NTAB = 2
 VEC_DEFAULTS = [1.0, 2.0, 0.5, 3.0, 0.25, 4.0]
+# wave 5: element names as modellers write them — plain identifiers, module-qualified names (a dot), names with a
+# blank, arrayed members `name[i]` (brackets); a name matcher such as \w+ only sees the first kind
+NAME_FORMS = [("plain", "e%d"), ("dotted", "mod.e%d"), ("blank", "e %d")]
+VEC_FORMS = [("member", "v%d"), ("dotted-member", "sub.v%d"), ("blank-member", "v %d")]
+NAME_STATS = {}
+
+
+def elem_name(n):
+    kind, fmt = NAME_FORMS[n % len(NAME_FORMS)]
+    return kind, fmt % n
 
 
 # ------------------------------------------------------------------ expressions
@@ -54,7 +64,7 @@ def dsl(e, els, vecs=None):
 def raw(e, names=None):
     """python source for model.add_equation (fully parenthesised, own renderer)"""
     if e[0] == "L": return repr(e[1])
-    if e[0] == "R": return "model.memoize('%s',t)" % (names[e[1]] if names and e[1] < len(names) else "e%d" % e[1])
+    if e[0] == "R": return "model.memoize('%s',t)" % (names[e[1]] if names and e[1] < len(names) else elem_name(e[1])[1])
     if e[0] == "X": return "random.uniform(0,1)"
     if e[0] == "K": return "model._lookup(%s,'p%d')" % (raw(e[2], names), e[1])
     return "((%s) %s (%s))" % (raw(e[2], names), OPSYM[e[1]], raw(e[3], names))
@@ -101,17 +111,21 @@ class Real:
         for n, k in enumerate(kinds):
             grp = group_of(kinds, n)
             if grp is None:
-                self.els.append(mk[k]("e%d" % n)); self.names.append("e%d" % n)
+                nk, nm = elem_name(n)
+                NAME_STATS[nk] = NAME_STATS.get(nk, 0) + 1
+                self.els.append(mk[k](nm)); self.names.append(nm)
                 continue
             g, size = grp
-            if n == g:          # arrayed element: the DSL creates one model element per member, named v<g>[i]
-                par = mk[k[0]]("v%d" % g)
+            vk, vfmt = VEC_FORMS[g % len(VEC_FORMS)]
+            NAME_STATS[vk] = NAME_STATS.get(vk, 0) + 1
+            if n == g:          # arrayed element: the DSL creates one model element per member, named <parent>[i]
+                par = mk[k[0]](vfmt % g)
                 defaults = [VEC_DEFAULTS[(g + i) % len(VEC_DEFAULTS)] for i in range(size)]
                 par.setup_vector(size, defaults)
                 self.vecs[g] = par
                 for i in range(size):
                     self.setup.append(("setinit" if k[0] == "s" else "seteq", g + i, ("L", defaults[i])))
-            self.els.append(self.vecs[g][n - g]); self.names.append("v%d[%d]" % (g, n - g))
+            self.els.append(self.vecs[g][n - g]); self.names.append((vfmt % g) + "[%d]" % (n - g))
         self.ids = {nm: i for i, nm in enumerate(self.names)}
         for p in range(NTAB):
             self.m.points["p%d" % p] = [list(x) for x in TABLES[p]]
@@ -123,7 +137,11 @@ class Real:
                 ["setpoints %d %s" % (p, tab_hex(p)) for p in range(NTAB)] + [op_line(o) for o in self.setup])
 
     def name(self, n):
-        return self.names[n] if n < len(self.names) else "e%d" % n
+        if n < len(self.names):
+            return self.names[n]
+        nm = elem_name(n)[1]          # an equation that exists only through add_equation
+        self.ids.setdefault(nm, n)
+        return nm
 
     def apply(self, op):
         k = op[0]
@@ -166,8 +184,6 @@ class Real:
         for name, d in self.m.memo.items():
             if name in self.ids:
                 n = self.ids[name]
-            elif re.fullmatch(r"e\d+", name):
-                n = int(name[1:])
             else:
                 continue              # the parent entry of an arrayed element holds no values
             for t, v in d.items():
@@ -581,8 +597,9 @@ class Sched:
     runs next.  Otherwise the running thread continues; when it ends, the lowest unfinished thread runs."""
     TIMEOUT = 20.0
 
-    def __init__(self, names, preempt, memoize_code, simulate_name="__simulate", argname="normalized_arg"):
+    def __init__(self, names, preempt, memoize_code, simulate_name="__simulate", argname="normalized_arg", ids=None):
         self.names, self.preempt = names, dict(preempt)
+        self.idof = (lambda nm: ids[nm]) if ids is not None else (lambda nm: int(nm[1:]))
         self.code, self.simname = memoize_code, simulate_name
         self.argname = argname          # local of `memoize` that holds the normalised time (DSL Model / generated class)
         self.cv = threading.Condition()
@@ -658,13 +675,13 @@ class Sched:
             st.pop()
             loc = frame.f_locals
             try:
-                key = (int(loc["equation"][1:]), int(round((loc[self.argname] - START) / DT)))
+                key = (self.idof(loc["equation"]), int(round((loc[self.argname] - START) / DT)))
             except Exception:
                 key = None
             cons = None
             if st:
                 l2 = st[-1].f_locals
-                cons = (int(l2["equation"][1:]), int(round((l2[self.argname] - START) / DT)))
+                cons = (self.idof(l2["equation"]), int(round((l2[self.argname] - START) / DT)))
             self.handouts.append((t, cons, key, None if arg is None else fbits(arg)))
         return self.memo_trace
 
@@ -695,10 +712,10 @@ def run_forced(system, preempt):
     r = Real(kinds)
     for op in defs:
         r.apply(op)
-    names = ["e%d" % n for n in reqs]
-    sch = Sched(names, preempt, Model.memoize.__code__)
+    names = [r.names[n] for n in reqs]
+    sch = Sched(names, preempt, Model.memoize.__code__, ids=r.ids)
     for i in range(len(kinds)):
-        r.m.memo["e%d" % i] = RecDict(sch, i)
+        r.m.memo[r.names[i]] = RecDict(sch, i)
     old_uniform = rmod.uniform
     rmod.uniform = sch.uniform
     threading.settrace(sch.gtrace)
@@ -711,11 +728,11 @@ def run_forced(system, preempt):
     reported = {}
     for eq, d in sim.results.items():
         for t, v in d.items():
-            reported[(int(eq[1:]), int(round((t - START) / DT)))] = fbits(v)
+            reported[(r.ids[eq], int(round((t - START) / DT)))] = fbits(v)
     memo = {}
     for nm, d in r.m.memo.items():
         for t, v in dict.items(d):
-            memo[(int(nm[1:]), int(round((t - START) / DT)))] = fbits(v)
+            memo[(r.ids[nm], int(round((t - START) / DT)))] = fbits(v)
     return {"events": sch.events, "handouts": sch.handouts, "reported": reported, "memo": memo,
             "line_events": sch.count, "error": sch.error}
 
@@ -1017,6 +1034,9 @@ def _run(chk, scratch):
         "Model._lookup / scipy interp1d (searchsorted, slope*(x-x_lo)+y_lo), validated bit for bit by the correspondence",
         "arrayed elements are the model elements `name[i]` the DSL creates per member (setup_vector, v[i] = …, element-wise `v.equation = …`); "
         "the harness expands one API call into the per-member model operations (the element-wise expansion itself is C10's subject)",
+        "element names: plain identifiers, module-qualified (`mod.e4`), with a blank (`e 5`), arrayed members (`v2[0]`, `sub.v4[1]`, "
+        "`v 6[0]`) by flat id modulo 3 in every SD-DSL stream (evidence `element_name_kinds`); the Lean model identifies elements by number "
+        "(names never enter it), XMILE systems keep identifier names (sanitising names is the transpiler's, C03)",
         "XMILE-generated classes: the real transpiler generates the class of six small systems per run; its `memoize` runs under the same line-level "
         "scheduler and is replayed by the same interleaving machine (Cfg bit from its own probe; Gen obligation holdsX / violatedX)",
     ]
@@ -1045,6 +1065,7 @@ def _run(chk, scratch):
     # ---- decide
     chk.notes["seq_correspondence_first_diff"] = sdiff
     chk.notes["conc_correspondence_first_diff"] = cdiff
+    chk.cov["element_name_kinds"] = dict(NAME_STATS)      # over all models built in the history and forced-schedule streams
     chk.notes["xmile_conc_correspondence_first_diff"] = xdiff
     for kinds, ops, nall, mm in stale:
         small = shrink(ops, lambda c: stale_check(kinds, c, nall) is not None)
@@ -1055,7 +1076,8 @@ def _run(chk, scratch):
         chk.add_finding(EDIT_KEY[last_edit],
                         f"after {[op_show(o) for o in small]}: e{mm['element']}(t_{mm['k']}) = {from_fbits(mm['after_history']) if len(mm['after_history']) == 16 else mm['after_history']}, "
                         f"a freshly built model with the same definitions yields {from_fbits(mm['fresh_model']) if len(mm['fresh_model']) == 16 else mm['fresh_model']}",
-                        {"kind": "history", "kinds": kinds, "ops": small, "nall": nall, "mismatch": mm})
+                        {"kind": "history", "kinds": kinds, "ops": small, "nall": nall, "mismatch": mm,
+                         "element_names": {"e%d" % i: nm for i, nm in enumerate(Real(kinds).names)}})
     for fact, key, txt, ops_ in (("init", "stale-initial-value", "probe: k = s*2; k(t_2); s.initial_value = 10.0; k(t_2) is the old value",
                                   (["s", "o"], [("seteq", 0, ("L", 2.0)), ("setinit", 0, ("L", 1.0)), ("seteq", 1, ("B", 2, ("R", 0), ("L", 2.0))),
                                                 ("eval", 1, 2), ("setinit", 0, ("L", 10.0))], 2)),
